@@ -152,12 +152,13 @@ def singleStr : Response.Single → String
   | .val x => itemStr (some x)
 
 /-- the components the parser produces for the wire of `resp.ops n haserr` -/
-def respComps (n : Nat) (haserr : Bool) : List Assemble.Comp :=
+def respComps (n : Nat) (haserr : Bool) (part : Bool := false) : List Assemble.Comp :=
   ((List.range n).flatMap fun i => [.field (str "i") (natToDec i), .endOfFrame]) ++
+    (if part && haserr then [.field (str "p") (str "x")] else []) ++
     [if haserr then .error { code := 5, commandIndex := n, message := str "boom" } else .endOfResponse]
 
-def respModel (n : Nat) (haserr : Bool) (pat : List Bool) : String :=
-  match (Assemble.run .initial (respComps n haserr)).1 with
+def respModel (n : Nat) (haserr : Bool) (pat : List Bool) (part : Bool := false) : String :=
+  match (Assemble.run .initial (respComps n haserr part)).1 with
   | [r] =>
     let d := driveFrames pat r.iter
     let body := ",".intercalate (hintStr r.iter.sizeHint :: d.map fun x => s!"{itemStr x.1}@{hintStr x.2}")
@@ -209,6 +210,16 @@ def handle (toks : List String) (impl : String) : Verdict :=
       { model := respModel n haserr pat,
         oracle := if impl == spec then "ok" else respDiff spec impl,
         branch := if pat.isEmpty then "resp-nopattern" else if haserr then "resp-err" else "resp-ok" }
+    | _, _, _ => bad "resp"
+  | ["resp.ops", ns, es, ps, "p"] =>
+    -- the failing command printed a field before its ACK: the SPEC is unchanged (partial output
+    -- of a failed command is not a frame)
+    match ns.toNat?, (if es == "1" then some true else none), parsePat (if ps == "_" then "" else ps) with
+    | some n, some haserr, some pat =>
+      let spec := respSpec n haserr pat
+      { model := respModel n haserr pat true,
+        oracle := if impl == spec then "ok" else respDiff spec impl,
+        branch := "resp-err-partial" }
     | _, _, _ => bad "resp"
   | _ => bad "frame-family"
 
